@@ -274,6 +274,7 @@ def obligations(tier, seed):
               ('totals-a', 'L3', ['mixed']), ('payments-a', 'L3', ['mixed']), ('payments-b', 'L1', ['x']), ('payments-b', 'L2', ['investment']), ('text', 'L1', ['Transfer', 'x']), ('text', 'L2', ['recurring'])]
     if not q:
         combos += [(v, l, t) for v in VIEWS for l in LAYOUTS for t in (['investment'], ['Recurring', 'misc'])]
+    combos = [c for i, c in enumerate(combos) if c not in combos[:i]]
     for (v, l, t) in combos:
         obs.append(Obligation(id=f'member-{v}-{l}-' + ('_'.join(t) or 'none'), factory='membership', params={'vname': v, 'layout': l, 'm2tags': t},
                               reals=True, opaque=True, sqrt_free=True, timeout=to, group='membership iff filter; independence; totals',
